@@ -2,6 +2,7 @@ import Model.Proto
 import Model.Bits
 import Model.Search
 import Model.Probing
+import Model.Vocab
 /-! Driver for stream `primitives` (C20): executes the model on the same operation lines as harness/c20.cc. -/
 open KV KV.Proto KV.Bits KV.Search
 open KV.Probing (Table Auto Entry Probe Res)
@@ -14,6 +15,10 @@ structure St where
   p2 : Bool := false
   hash : Nat → Nat := id
   auto : Auto := { t := { s := fun _ => none, N := 1, entries := 0 }, thr := 0 }
+  sp : KV.Vocab.Specials := ⟨0, 0, 0, 0⟩
+  gv : Auto := { t := { s := fun _ => none, N := 1, entries := 0 }, thr := 0 }
+  pv : KV.Vocab.PVocab := KV.Vocab.pNew 1
+  sv : KV.Vocab.SVocab := KV.Vocab.sNew
 
 /-! ### stream `probing` -/
 
@@ -40,8 +45,13 @@ def dumpTable (t : Table) : String :=
 
 /-- `ProbingHashTable<…>::Size(entries, multiplier)` in buckets:
 `RoundBuckets(max(entries + 1, uint64(multiplier * float(entries))))`, single precision -/
-def autoBuckets (init : Nat) : Nat :=
-  KV.Probing.roundBuckets (max (init + 1) ((1.2 : Float32) * Float32.ofNat init).toUInt64.toNat)
+def autoArg (init : Nat) : Nat := max (init + 1) ((1.2 : Float32) * Float32.ofNat init).toUInt64.toNat
+def autoBuckets (init : Nat) : Nat := KV.Probing.roundBuckets (autoArg init)
+
+def showVErr : KV.Vocab.VErr → String
+  | .tooMany => "too-many"
+  | .full => "full"
+  | .diverge => "diverge"
 
 def showProbe : Option Probe → String
   | none => "diverge"
@@ -196,6 +206,64 @@ def step (s : St) (line : String) : St × String :=
     | none => (s, "bad-op")
   | ["asize"] => (s, toString s.auto.t.entries)
   | ["adump"] => (s, dumpTable s.auto.t)
+  -- stream `vocab`: words are represented by the 64-bit hashes the harness reported (second argument)
+  | ["vconst", a, b, c, d] =>
+    match a.toNat?, b.toNat?, c.toNat?, d.toNat? with
+    | some a, some b, some c, some d => ({ s with sp := ⟨a, b, c, d⟩ }, "ok")
+    | _, _, _, _ => (s, "bad-op")
+  | ["gnew", init] =>
+    match init.toNat? with
+    | some init =>
+      match KV.Vocab.gNew s.sp (autoArg init) with
+      | .ok a => ({ s with gv := { a with t := norm a.t } }, s!"ok {a.t.entries}")
+      | .error e => (s, showVErr e)
+    | none => (s, "bad-op")
+  | ["gfoi", _, h] =>
+    match h.toNat? with
+    | some h =>
+      match KV.Vocab.gFindOrInsert s.gv h with
+      | .ok (i, a) => ({ s with gv := { a with t := norm a.t } }, toString i)
+      | .error e => (s, showVErr e)
+    | none => (s, "bad-op")
+  | ["gidx", _, h] =>
+    match h.toNat? with
+    | some h => (s, match KV.Vocab.gIndex s.gv h with | some i => toString i | none => "diverge")
+    | none => (s, "bad-op")
+  | ["gsize"] => (s, toString s.gv.t.entries)
+  | ["pvnew", _, _, n] =>
+    match n.toNat? with
+    | some n => ({ s with pv := KV.Vocab.pNew n }, s!"ok {n}")
+    | none => (s, "bad-op")
+  | ["pvins", _, h] =>
+    match h.toNat? with
+    | some h =>
+      match KV.Vocab.pInsert s.sp s.pv h with
+      | .ok (i, v) => ({ s with pv := { v with t := norm v.t } }, toString i)
+      | .error e => (s, showVErr e)
+    | none => (s, "bad-op")
+  | ["pvidx", _, h] =>
+    match h.toNat? with
+    | some h => (s, match KV.Vocab.pIndex s.pv h with | some i => toString i | none => "diverge")
+    | none => (s, "bad-op")
+  | ["pvfin"] =>
+    let ix := fun h => match KV.Vocab.pIndex s.pv h with | some i => toString i | none => "diverge"
+    (s, s!"{s.pv.bound} {if s.pv.sawUnk then 1 else 0} {ix s.sp.bos} {ix s.sp.eos}")
+  | ["svnew", _] => ({ s with sv := KV.Vocab.sNew }, "ok")
+  | ["svins", _, h] =>
+    match h.toNat? with
+    | some h => let r := KV.Vocab.sInsert s.sp s.sv h; ({ s with sv := r.2 }, toString r.1)
+    | none => (s, "bad-op")
+  | ["svfin"] =>
+    -- the harness tags the unigram weights with the provisional ids 1..n (0 = <unk> stays)
+    let r := KV.Vocab.sFinish s.sv ((List.range s.sv.keys.length).map (· + 1))
+    let v := r.1
+    let ix := fun h => toString (KV.Vocab.sIndex (fun _ _ _ => 0) v h)
+    ({ s with sv := v },
+     s!"{KV.Vocab.sBound v} {if v.sawUnk then 1 else 0} {ix s.sp.bos} {ix s.sp.eos} | " ++ " ".intercalate ((0 :: r.2).map toString))
+  | ["svidx", _, h] =>
+    match h.toNat? with
+    | some h => (s, toString (KV.Vocab.sIndex (fun o r w => o * w / (r + 1)) s.sv h))
+    | none => (s, "bad-op")
   | ["rb", v] =>
     match v.toNat? with
     | some v => (s, toString (requiredBits v))
